@@ -81,7 +81,11 @@ def validFlag (d t : Int) : Bool :=
   let j := d % 1000
   1 ≤ y ∧ 1 ≤ j ∧ j ≤ yearLen y ∧ 0 ≤ t ∧ t / 10000 < 24 ∧ t % 10000 / 100 < 60 ∧ t % 100 < 60
 
-/-- seconds of an IOAPI TSTEP (HHMMSS with any number of hour digits) as getTimes reads it -/
-def tstepSeconds (T : Int) : Int := (T / 10000) * 3600 + (T % 10000 / 100) * 60 + T % 100
+/-- seconds of a non-negative HHMMSS number (any number of hour digits) -/
+def hmsSeconds (T : Int) : Int := (T / 10000) * 3600 + (T % 10000 / 100) * 60 + T % 100
+
+/-- seconds of an IOAPI TSTEP as getTimes reads it (repaired code): the sign of a negative step — a file that runs
+backward in time — belongs to the whole duration, the digits are those of the magnitude -/
+def tstepSeconds (T : Int) : Int := if T < 0 then - hmsSeconds (-T) else hmsSeconds T
 
 end Cal
